@@ -71,7 +71,7 @@ def job(g, fn, tier, rows=None):
     sampler = inv_sampler(g)
     res.functions.add(t + "_" + fn)
     if rows is None or 0 in rows:
-        res.validated += h.validate(t + "_" + fn, sampler, n * n * n, 8)
+        res.validated += h.validate(t + "_" + fn, c02.tangent_sampler(g, well_conditioned=True), n * n * n, 8)
     ex = engine.Explorer(h.mod, assumptions=asm, max_paths=64)
     paths = ex.explore(t + "_" + fn, a, n * n * n)
     res.note_paths(paths, ex)
@@ -173,7 +173,7 @@ def job_rminus(g, tier):
     sampler = inv_sampler(g)
     nout = n * n + n ** 3 + n + n * n
     res.functions.add(t + "_rminus_derivs")
-    res.validated += h.validate(t + "_rminus_derivs", sampler, nout, 6)
+    res.validated += h.validate(t + "_rminus_derivs", c02.tangent_sampler(g, well_conditioned=True), nout, 6)
     ex = engine.Explorer(h.mod, assumptions=asm, max_paths=128)
     paths = ex.explore(t + "_rminus_derivs", a, nout)
     res.note_paths(paths, ex)
